@@ -56,3 +56,15 @@ package bft
 //@   modifies lib.QuorumCertificate.*
 //@   ensures[restores] x.Qc != nil ==> unchanged(x.Qc.Header, x.Qc.Block, x.Qc.BlockHash, x.Qc.ResultsHash, x.Qc.Results, x.Qc.ProposerKey, x.Qc.Signature)
 //@   callsite Marshal requires[covers] isProposerMsg(x) ? (samefields(x, dyn(arg0, *Message), Qc, Vdf, Signature, Timestamp, RcBuildHeight) && (x.Qc == nil ? dyn(arg0, *Message).Qc == nil : (dyn(arg0, *Message).Qc != nil && samefields(x.Qc, dyn(arg0, *Message).Qc, Block, Results)))) : (dyn(arg0, *Message).Qc != nil && dyn(arg0, *Message).Qc.Header == x.Qc.Header)
+
+// ---- C01: votes are counted once, and a quorum is +2/3 of the committee's power ------------------------------
+// a vote is added to a vote set only if that member's bit was not yet set; its power - the power of the
+// member the signature key belongs to - is added exactly once and the bit is set
+//@ func (*BFT).addSigToVoteSet
+//@   callsite AddSigner requires[once] !signerBit(mpkBitmap(voteSet.multiKey), idx) && arg2 == idx
+//@   callsite AddSigner requires[power] voteSet.TotalVotedPower == wrap64(old(voteSet.TotalVotedPower) + val.VotingPower) && bytes(val.PublicKey) == bytes(vote.Signature.PublicKey)
+// the leader reports a majority only for a vote set whose accumulated power reaches the committee's
+// floor(2T/3)+1 threshold
+//@ func (*BFT).GetMajorityVote
+//@   callsite AggregateSignatures requires[maj23] voteSet.TotalVotedPower >= b.ValidatorSet.MinimumMaj23
+//@   ensures[none] !isnil(err) ==> m == nil && sig == nil
